@@ -56,7 +56,7 @@ def gen_case(rng):
             pf = [rng.choice(["parameter", "constant"])]
         name = "%s%d" % (rng.choice("abdfghkmnqrsuvw"), i)
         var_info.append((name, typ, pf))
-    der_direct, der_expr, der_init = set(), set(), set()
+    der_direct, der_expr, der_init, der_decl = set(), set(), set(), set()
     cands = [n for n, t, pf in var_info if t == "Real" and not (set(pf) & {"parameter", "constant", "input"})]
     rng.shuffle(cands)
     # a differentiated top-level input stays an input (precedence: input before state)
@@ -69,13 +69,15 @@ def gen_case(rng):
             der_init.add(n)
         elif k < 0.5:
             der_expr.add(n)
+        elif k < 0.6:
+            der_decl.add(n)
     if len(der_expr) == 1 and len(cands) >= 2:
         other = [c for c in cands if c not in der_expr]
         der_expr.add(other[0])
     if len(der_expr) == 1:
         der_direct |= der_expr
         der_expr = set()
-    ders = der_direct | der_expr | der_init
+    ders = der_direct | der_expr | der_init | der_decl
     for name, typ, pf in var_info:
         s = "  " + " ".join(pf) + (" " if pf else "") + typ + " " + name
         if set(pf) & {"parameter", "constant"}:
@@ -97,6 +99,11 @@ def gen_case(rng):
             ref["alg_states"].append(name)
             if "output" in pf:
                 outputs.append(name)
+    # variables whose only differentiation is in the declaration equation of another variable
+    for n in sorted(der_decl):
+        decls.append("  Real wb_%s = der(%s);" % (n, n))
+        ref["alg_states"].append("wb_" + n)
+        tags.add("der:only-in-declaration-binding")
     eqs, ieqs = [], []
     for n in sorted(der_direct):
         eqs.append("  der(%s) = %s;" % (n, round(rng.uniform(-2, 2), 2)))
